@@ -49,7 +49,8 @@ Record pool_inv (h : Z) (p : pool) : Prop := mkPI {
   pi_started : 0 < p_locked p -> p_start p <= p_last p;
   pi_fresh : h < p_start p -> Forall (fun r => r_rem r = r_total r) (p_rules p);
   pi_creator : actor (p_creator p);
-  pi_nodup : NoDup (keys (p_farmers p))
+  pi_nodup : NoDup (keys (p_farmers p));
+  pi_pos : Forall (fun f => 0 < f_locked f) (vals (p_farmers p))
 }.
 
 Definition covered (p : pool) : Prop :=
@@ -66,7 +67,8 @@ Record inv (s : state) : Prop := mkInv {
   i_qwf : forall e pid, in_queue (queue s) (e, pid) = true -> exists p, get pid (pools s) = Some p /\ p_end p = e;
   i_qnd : NoDup (queue s);
   i_height : 0 <= height s;
-  i_seq : 0 <= seq s
+  i_seq : 0 <= seq s;
+  i_nodup : NoDup (keys (pools s))
 }.
 
 (** ** sums over the pools *)
